@@ -237,15 +237,17 @@ func (i *Int) Sub(a, b kyber.Scalar) kyber.Scalar {
 
 // Neg sets the target to -a mod M.
 func (i *Int) Neg(a kyber.Scalar) kyber.Scalar {
-	newNat := new(compatible.Int)
 	ai, ok := a.(*Int)
 	if !ok {
 		panic("invalid argument")
 	}
-	newNat.Int = *ai.M.Nat()
-	i.V.Set(newNat)
+	// M - a lies in [1, M]; the final Mod maps M (the case a = 0) back to 0.
+	// a is read before the receiver is written, so i.Neg(i) is safe.
+	m := compatible.FromNat(ai.M.Nat())
+	av := compatible.NewInt(0).Mod(&ai.V, ai.M)
+	diff := compatible.NewInt(0).Sub(m, av, ai.M)
 	i.M = ai.M
-	i.V = *compatible.NewInt(0).Sub(&i.V, &ai.V, i.M)
+	i.V = *compatible.NewInt(0).Mod(diff, i.M)
 
 	return i
 }
